@@ -245,6 +245,21 @@ Proof.
 Qed.
 Print Assumptions numeric_limits_present.
 
+(* which of the query parser's two limits bites: k plain terms inside d nested parentheses are
+   accepted iff d is within the nesting limit and the 2 d + k + 1 calls of parse_query_term are
+   within the term limit (so with the source's constants plain terms are bounded by T - 1 and pure
+   nesting by (T - 2) / 2, below the nesting limit itself) *)
+Theorem query_limits_effective :
+  exists D T, src_query_depth_limit = Some D /\ src_query_term_limit = Some T /\
+    forall d k, query_accept src_query_depth_limit src_query_term_limit d k = true
+                <-> d <= D /\ 2 * d + k + 1 <= T.
+Proof.
+  destruct src_query_depth_limit as [D|] eqn:E1; [|discriminate].
+  destruct src_query_term_limit as [T|] eqn:E2; [|discriminate].
+  exists D, T. split; [reflexivity|]. split; [reflexivity|]. intros d k. apply query_accept_spec.
+Qed.
+Print Assumptions query_limits_effective.
+
 (* non-vacuity *)
 Example nest_three : parse_depth src_parse_depth_limit (nest 3) = Ok 3.
 Proof. reflexivity. Qed.
